@@ -13,10 +13,12 @@ package main
 import (
 	"fmt"
 	"os"
+	"path/filepath"
 	"strings"
 
 	"github.com/itchyny/gojq"
 
+	"verifharness/c01aux"
 	"verifharness/common"
 	"verifharness/jqast"
 	"verifharness/jqgen"
@@ -195,6 +197,8 @@ func main() {
 		ctx.Res.Notes = append(ctx.Res.Notes, fmt.Sprintf("%d disagreement(s) confirmed against jq 1.6", n))
 	}
 	lawsOracle(ctx)
+	// stack / scope-stack / mini-VM streams (package c01aux; driver drv_c01aux next to drv_c01)
+	c01aux.Run(ctx, filepath.Join(filepath.Dir(ctx.Driver), "drv_c01aux"))
 	ctx.Finish()
 }
 
